@@ -149,7 +149,8 @@ def gen_tags(rng):
                      "seed": rng.randrange(1 << 30),
                      "where": rng.choice(["boundary", "interior", "any"]),
                      "shuffle": rng.random() < 0.35,
-                     "repeat": rng.random() < 0.15})
+                     "repeat": rng.random() < 0.15,
+                     "two_sided": rng.random() < 0.5})
     return tags
 
 
@@ -307,14 +308,27 @@ def build_mesh(o):
             if tg.get("repeat") and ix:
                 # the same facet listed twice (overlapping selections)
                 ix = ix + [ix[r.randrange(len(ix))]]
+                if tg.get("two_sided") and tg["kind"] == "bo":
+                    # a whole interface listed from both sides
+                    ix = ix + [f for f in sorted(set(ix)) if f2t[1, f] != -1
+                               and f != ix[-1]]
             if tg.get("shuffle"):
                 r.shuffle(ix)     # a user-chosen, not ascending, order
             idx = np.array(ix, dtype=np.int32)
             if tg["kind"] == "bo":
                 flag = {}
-                for f in idx.tolist():   # one flag per facet, also if listed twice
+                for f in idx.tolist():   # one flag per facet ...
                     flag.setdefault(f, r.randrange(2) if f2t[1, f] != -1 else 0)
                 ori = np.array([flag[f] for f in idx.tolist()], dtype=np.int64)
+                if tg.get("two_sided"):
+                    # ... unless the interface is listed from both sides:
+                    # the second occurrence of an interior facet gets the
+                    # opposite flag
+                    seen = set()
+                    for j, f in enumerate(idx.tolist()):
+                        if f in seen and f2t[1, f] != -1:
+                            ori[j] = 1 - flag[f]
+                        seen.add(f)
                 bnds[tg["name"]] = OrientedBoundary(idx, ori)
             else:
                 bnds[tg["name"]] = idx
